@@ -523,3 +523,55 @@ impl NumericRoundOps for f64 {
         self.ceil()
     }
 }
+
+/// A number as it is, without rounding: integers of every width as `i128`, floating point as `f64`.
+///
+/// Comparing through `f64` made 64-bit integers that differ by less than the spacing of doubles equal
+/// (2^53 and 2^53 + 1, `u64::MAX - 1` and `u64::MAX`).
+#[derive(Debug, Clone, Copy)]
+pub enum ExactNum {
+    Int(i128),
+    Float(f64),
+}
+
+impl ExactNum {
+    /// Mathematical order; `None` only when a NaN is involved.
+    pub fn partial_cmp(self, other: Self) -> Option<std::cmp::Ordering> {
+        match (self, other) {
+            (Self::Int(a), Self::Int(b)) => Some(a.cmp(&b)),
+            (Self::Float(a), Self::Float(b)) => a.partial_cmp(&b),
+            (Self::Int(a), Self::Float(b)) => Self::int_float(a, b),
+            (Self::Float(a), Self::Int(b)) => Self::int_float(b, a).map(std::cmp::Ordering::reverse),
+        }
+    }
+
+    /// Compares an integer (at most 64 bits wide, held in an `i128`) with a double exactly.
+    fn int_float(i: i128, f: f64) -> Option<std::cmp::Ordering> {
+        use std::cmp::Ordering::*;
+        if f.is_nan() {
+            return None;
+        }
+        // Beyond +-2^65 every double is larger / smaller than any 64-bit integer.
+        if f >= 3.6893488147419103e19 {
+            return Some(Less);
+        }
+        if f <= -3.6893488147419103e19 {
+            return Some(Greater);
+        }
+        let whole = f.trunc();
+        // `whole` is integral and well inside the i128 range: the conversion is exact.
+        match i.cmp(&(whole as i128)) {
+            Equal => {
+                let frac = f - whole;
+                if frac > 0.0 {
+                    Some(Less)
+                } else if frac < 0.0 {
+                    Some(Greater)
+                } else {
+                    Some(Equal)
+                }
+            }
+            other => Some(other),
+        }
+    }
+}
